@@ -88,6 +88,8 @@ def gen_table(rng, n=None, time=None, nan=False):
         # resolution of the DatetimeIndex (pandas' default for these values is microseconds): with 's' the rows sit exactly
         # one index tick apart
         out['t_unit'] = rng.choice(['s', 's', 'ms', 'ns'])
+    if time and rng.random() < 0.4:
+        out['ex_time'] = 'early'
     return out
 
 
@@ -116,8 +118,13 @@ def example_df(tab, ex):
     e = dict(_EX)
     if tab.get('t') is None:
         e['t'] = None
-    elif tab.get('t_unit'):
-        e['t_unit'] = tab['t_unit']
+    else:
+        if tab.get('t_unit'):
+            e['t_unit'] = tab['t_unit']
+        if tab.get('ex_time') == 'early':
+            # example rows that look like a sample of earlier data (the usual way to make an example) instead of lying in
+            # the far future of every generated row
+            e['t'] = [s - 200000 for s in _EX['t']]
     df = table_df(e)
     return df if ex == 'rows' else df.iloc[:0]
 
